@@ -109,20 +109,16 @@ func (round *round1) Update() (bool, *tss.Error) {
 		}
 		round.oldOK[j] = true
 
-		// save the ecdsa pub received from the old committee
-		if round.temp.dgRound1Messages[0] == nil {
-			ret = false
-			continue
-		}
-		r1msg := round.temp.dgRound1Messages[0].Content().(*DGRound1Message)
+		// every old member announces the ecdsa pub: they must all agree
+		r1msg := msg.Content().(*DGRound1Message)
 		candidate, err := r1msg.UnmarshalECDSAPub(round.Params().EC())
 		if err != nil {
 			return false, round.WrapError(errors.New("unable to unmarshal the ecdsa pub key"), msg.GetFrom())
 		}
 		if round.save.ECDSAPub != nil &&
 			!candidate.Equals(round.save.ECDSAPub) {
-			// uh oh - anomaly!
-			return false, round.WrapError(errors.New("ecdsa pub key did not match what we received previously"), msg.GetFrom())
+			// uh oh - anomaly! two old members announce different keys; which of them is wrong cannot be told here
+			return false, round.WrapError(errors.New("ecdsa pub key did not match what we received previously"))
 		}
 		round.save.ECDSAPub = candidate
 	}
